@@ -181,7 +181,7 @@ fn o_trunc_day(u: U, n: i32, y: i32, m: u32, d: u32) -> i32 {
         }
         U::Quarter => o_daynum(y, (m - 1) / 3 * 3 + 1, 1),
         U::Month => o_daynum(y, m, 1),
-        U::Week => n - ((o_doy(y, m, d) as i32 - 1) % 7),
+        U::Week => n - ((n - o_daynum(y, 1, 1)) % 7), // 7-day blocks from 1 January
         U::IsoWeek => n - ((wd + 5) % 7),
         U::MonthWeek => n - ((d as i32 - 1) % 7),
         U::SundayWeek => n - (wd - 1),
@@ -403,7 +403,7 @@ fn o_round_day(u: U, n: i32, y: i32, m: u32, d: u32, y00_rounds_up: bool) -> i64
                 o_daynum(y, m, 1) as i64
             }
         }
-        U::Week => o_round_week(n, (o_doy(y, m, d) as i32 - 1) % 7),
+        U::Week => o_round_week(n, (n - o_daynum(y, 1, 1)) % 7),
         U::IsoWeek => o_round_week(n, (wd + 5) % 7),
         U::MonthWeek => o_round_week(n, (d as i32 - 1) % 7),
         U::SundayWeek => o_round_week(n, wd - 1),
@@ -515,7 +515,7 @@ fn c11_date_mono(unit: u8) {
     }
 }
 
-//@ unit c11_date prop=C11,C02,C03 chunks=ints:5,0,1,2,3,4,6,7,8,9,10,11 quick=first:1 mem=4 timeout=1500/3600 stubs=crate::common::julian2date=>crate::verif_support::ghost_julian2date bound="every real date 0001-01-01..9999-12-31 (as a triple), rounding unit = parameter, on Date; for the century unit the years divisible by 100 are covered by c11_century_y00_*"
+//@ unit c11_date prop=C11,C02,C03 chunks=ints:0,5,1,2,3,4,6,7,8,9,10,11 quick=first:1 mem=4 timeout=1500/3600 stubs=crate::common::julian2date=>crate::verif_support::ghost_julian2date bound="every real date 0001-01-01..9999-12-31 (as a triple), rounding unit = parameter, on Date; for the century unit the years divisible by 100 are covered by c11_century_y00_*"
 fn c11_date(unit: u8) {
     c11_date_body(unit_of(unit), true, false);
 }
